@@ -12,6 +12,7 @@ The reduced QR factor `Q` (`K × (K-1)`) of `torch.linalg.qr(I[:, :-1] - I[:, [-
 parameter.  Its contract (`QContract`, checked by the driver on every real `Q`) is
 `QᵀQ = I` and `QQᵀ = I − J/K` (`J` all ones).
 -/
+import Xrfmv.Gen.Codec
 import Xrfmv.Scalar
 
 namespace Xrfmv.Codec
@@ -57,7 +58,8 @@ def encodeBinary (l : Nat) : Vec α 1 := fun _ => ofNat' l
 def encodeOneHot (K : Nat) (l : Fin K) : Vec α K := fun k => delta l k
 
 /-- `torch.cat([1 - num, num], dim=1)` for one-column input. -/
-def expandBinary (v : Vec α 1) : Vec α 2 := fun k => if k.val = 0 then 1 - v 0 else v 0
+def expandBinary (v : Vec α 1) : Vec α 2 :=
+  fun k => if k.val = 0 then Xrfmv.Gen.Codec.binaryFirst (v 0) else Xrfmv.Gen.Codec.binarySecond (v 0)
 
 /-! ### prevalence mode -/
 
@@ -157,7 +159,8 @@ variable {α : Type} [Add α] [Sub α] [Mul α] [Div α] [OfNat α 0] [OfNat α 
 /-- `torch.clamp(x, lo, hi) = min(max(x, lo), hi)`. -/
 def clamp (lo hi x : α) : α := min (max x lo) hi
 
-def clampVec {n : Nat} (ε : α) (p : Vec α n) : Vec α n := fun i => clamp ε (1 - ε) (p i)
+def clampVec {n : Nat} (ε : α) (p : Vec α n) : Vec α n :=
+  fun i => clamp (Xrfmv.Gen.Codec.clampLo ε) (Xrfmv.Gen.Codec.clampHi ε) (p i)
 
 /-- `p = clamp(p, eps, 1-eps); p / p.sum()`. -/
 def clampNorm {n : Nat} (ε : α) (p : Vec α n) : Vec α n :=
